@@ -349,12 +349,12 @@ class Memory():
         """
         Read the specified amount of bytes from the given memory at the given address
         """
-        if memory.id in self._read_requests:
+        rreq = _ReadRequest(memory, addr, length, self.cf)
+        # One read at a time for a memory: test and register in one step, two
+        # threads may ask at the same moment
+        if self._read_requests.setdefault(memory.id, rreq) is not rreq:
             logger.warning('There is already a read operation ongoing for memory id {}'.format(memory.id))
             return False
-
-        rreq = _ReadRequest(memory, addr, length, self.cf)
-        self._read_requests[memory.id] = rreq
 
         if self.cf.link is None:
             # The request could never be sent, completed or failed
